@@ -283,7 +283,17 @@ def make_flag():
 def gen_directives(rng):
   """Returns (directive strings, model thunks) - model = the same steps done by hand."""
   seq = []
-  base_kind = rng.choice(['config', 'config', 'config_str', 'auto', 'lit'])
+  base_kind = rng.choice(['config', 'config', 'config_str', 'auto', 'lit', 'dups'])
+  if base_kind == 'dups':
+    v = rng.choice([0, 3, 'w'])
+    seq.append((f'config:base_dups({v!r})', lambda cfg, v=v: flagmod.base_dups(v)))
+    for _ in range(rng.randint(0, 3)):
+      path, setter = rng.choice([
+          ('a.x', lambda c, x: setattr(c.a, 'x', x)), ('b.x[0]', lambda c, x: c.b.x.__setitem__(0, x)),
+          ('c[0].x', lambda c, x: setattr(c.c[0], 'x', x)), ('c[1].y', lambda c, x: setattr(c.c[1], 'y', x))])
+      x = lit(rng)
+      seq.append((f'set:{path}={x!r}', lambda cfg, s=setter, x=x: (s(cfg, x), cfg)[1]))
+    return seq
   if base_kind == 'lit':
     # few distinct expression texts with MUTABLE literal arguments, repeated across flags of one
     # process, and overrides that edit those literals in place
